@@ -25,6 +25,16 @@ func emitBoundReports(p *Program, r *Result, ba *boundAnalysis, rule string, sup
 			continue
 		}
 		key := rule + " | " + fname + " | " + construct
+		if _, ok := suppress[key]; !ok && len(suppress) > 0 {
+			// the suppressed construct may have moved into an unexported helper of NextInto (same operation, same argument)
+			if ni := p.lookupFunc(pkgMcap, "indexedMessageIterator.NextInto"); ni != nil {
+				for _, rf := range regionOf(p, ni, 3) {
+					if rf == sr.fn {
+						key = rule + " | mcap.indexedMessageIterator.NextInto | " + construct
+					}
+				}
+			}
+		}
 		if why, ok := suppress[key]; ok {
 			r.note(rule, fname, construct+" [suppressed]", pos, "named suppression: "+why)
 			continue
